@@ -86,11 +86,14 @@ def apply_op(t, m, op, form="m"):
 class HexSys:
     def __init__(self, *, universe="H5", values=("S", "L"), prune=False, props=("C01",), batch_len=0,
                  forms=("m",), exits=("commit", "abort"), write_faults=False, batch_universe=None,
-                 nested=False, seed=0, init_all=False, direct=True, extra_batches=()):
+                 nested=False, seed=0, init_all=False, direct=True, extra_batches=(), pairs=False):
         self.kw = dict(universe=universe, values=list(values), prune=prune, props=sorted(props), batch_len=batch_len,
                        forms=list(forms), exits=list(exits), write_faults=write_faults,
                        batch_universe=batch_universe, nested=nested, seed=seed, direct=direct,
-                       extra_batches=jsonable(extra_batches))
+                       extra_batches=jsonable(extra_batches), pairs=pairs)
+        self.pairs = pairs
+        if pairs and (write_faults or "wfail" in exits):
+            raise ValueError("write-fault positions are counted from the pre-state; not available for pairs")
         self.labels = alphabet.Labels(seed)
         self.universe = universe
         self.keys = self.labels.keys(universe)
@@ -140,6 +143,12 @@ class HexSys:
         HexaryTrie._cached_create_node_to_db_mapping.cache_clear()
 
     def events(self, snap, model):
+        if self.pairs:
+            base = self._events(snap, model)
+            return [("pair", a, b) for a in base for b in base]
+        return self._events(snap, model)
+
+    def _events(self, snap, model):
         evs = []
         if self.direct:
             for op in self.ops:
@@ -189,7 +198,26 @@ class HexSys:
 
     # ------------------------------------------------------------------ the transition
     def step(self, snap, model, ev):
-        t = restore(snap)
+        if ev[0] == "pair":
+            # two consecutive events on ONE live object (no snapshot/restore in between): whatever the object keeps
+            # between calls is live for the second event; the intermediate state gets the full state invariants too
+            t = restore(snap)
+            cur_snap, cur_model, viols = snap, model, []
+            for i, sub in enumerate(ev[1:]):
+                t.db.reset_log()
+                st = self._do(t, cur_snap, cur_model, sub)
+                viols += st.viols
+                if st.snap is None or st.viols:
+                    return Step(None, st.model, viols)
+                cur_snap, cur_model = st.snap, st.model
+                if i == 0:
+                    viols += self.state_check(cur_snap, cur_model)
+                    if viols:
+                        return Step(None, cur_model, viols)
+            return Step(cur_snap, cur_model, viols)
+        return self._do(restore(snap), snap, model, ev)
+
+    def _do(self, t, snap, model, ev):
         m = dict(model)
         viols = []
         pre_root, pre_db, pre_rc = snap
@@ -529,6 +557,10 @@ class HexSys:
     def live_apply(self, live, ev):
         t, m = live
         kind = ev[0]
+        if kind == "pair":
+            self.live_apply(live, ev[1])
+            self.live_apply(live, ev[2])
+            return
         if kind == "op":
             apply_op(t, m, ev[1], ev[2])
         elif kind == "opwf":
@@ -581,3 +613,10 @@ class HexSys:
 
     def live_canon(self, live):
         return canon(snapshot(live[0]))
+
+    def live_check(self, live):
+        """observations on the long-lived trie after every replayed event"""
+        t, m = live
+        if "C01" in self.props:
+            return self._probe(t, m, "C01", where="long_lived_object", forms=("get", "contains"), probes=self.keys)
+        return []
